@@ -24,6 +24,16 @@ import core  # noqa: E402
 import replay  # noqa: E402
 
 
+def feat_digest(tr):
+    """digest of the feature registry INCLUDING each feature's metadata (display names, value names, ...) and of
+    the key roles - a projection (C16: 'the feature registry ... unchanged')"""
+    import hashlib
+    f = tr.features
+    doc = {str(k): {str(a): repr(b) for a, b in sorted(dict(v).items(), key=lambda kv: str(kv[0]))} for k, v in f.items()}
+    roles = [repr(f.time_key), repr(f.position_key), repr(f.tracklet_key), repr(f.lineage_key)]
+    return hashlib.md5(json.dumps([doc, roles], sort_keys=True).encode()).hexdigest()[:16]
+
+
 def scale_of(tr):
     return [core.rat(x) for x in tr.scale] if tr.scale is not None else []
 
@@ -39,8 +49,32 @@ def do_export(tr, fmt, d, node_ids=None):
             export_to_csv(tr, d / "t.csv", node_ids=node_ids)
     elif fmt == "geff":
         export_to_geff(tr, d / "g", node_ids=node_ids)
+    elif fmt == "geff_ow":
+        # the target directory already holds ANOTHER, larger export (more frames, wider frames, other labels);
+        # overwrite=True must give what a fresh directory gives
+        export_to_geff(decoy_tracks(tr), d / "g")
+        export_to_geff(tr, d / "g", node_ids=node_ids, overwrite=True)
     elif fmt == "internal":
         save_tracks(tr, d / "s")
+
+
+def decoy_tracks(tr):
+    """tracks with the same kind of data as `tr` but two more frames, wider frames and labels 91.. filling every frame"""
+    import networkx as nx
+    from funtracks.data_model import SolutionTracks
+    g = nx.DiGraph()
+    if tr.segmentation is None:
+        for k in range(4):
+            g.add_node(91 + k, time=k, pos=[1.0] * (tr.ndim - 1))
+        return SolutionTracks(g, ndim=tr.ndim)
+    shape = list(tr.segmentation.shape)
+    shape[0] += 2
+    shape[-1] += 3
+    seg = np.zeros(shape, dtype=tr.segmentation.dtype)
+    for k in range(shape[0]):
+        seg[k] = 91 + k
+        g.add_node(91 + k, time=k)
+    return SolutionTracks(g, segmentation=seg, scale=None if tr.scale is None else list(tr.scale))
 
 
 def read_back(cfg, tr, fmt, d):
@@ -55,7 +89,9 @@ def read_back(cfg, tr, fmt, d):
         return tracks_from_df(df, node_name_map={"time": "t", "pos": axes, "id": "id", "parent_id": "parent_id",
                                                  "track_id": "track_id"})
     if fmt == "geff":
-        nm = {"time": tr.features.time_key, "pos": axes, "track_id": "track_id", "lineage_id": "lineage_id"}
+        # (standard key -> name of the property in the store = the attribute name the tracks use)
+        nm = {"time": tr.features.time_key, "pos": axes, "track_id": tr.features.tracklet_key,
+              "lineage_id": tr.features.lineage_key}
         kw = {}
         if core.CUSTOM_KEY in tr.features and any(core.CUSTOM_KEY in a for _, a in tr.graph.nodes(data=True)):
             # a static feature that only some nodes carry is loaded, not recomputed
@@ -74,7 +110,8 @@ def read_back(cfg, tr, fmt, d):
     return load_tracks(d / "s", solution=True)
 
 
-RO_OPS = ["export_csv", "export_csv_subset", "export_geff", "export_geff_subset", "save", "queries"]
+RO_OPS = ["export_csv", "export_csv_subset", "export_geff", "export_geff_subset", "save", "queries",
+          "export_csv_display", "export_csv_display_subset"]
 
 
 def run_ro(drv, op, d):
@@ -89,6 +126,9 @@ def run_ro(drv, op, d):
         do_export(tr, "geff", d)
     elif op == "export_geff_subset":
         do_export(tr, "geff", d, node_ids=sel)
+    elif op in ("export_csv_display", "export_csv_display_subset"):
+        from funtracks.import_export import export_to_csv
+        export_to_csv(tr, d / "t.csv", node_ids=sel if op.endswith("subset") else None, use_display_names=True)
     elif op == "save":
         do_export(tr, "internal", d)
     elif op == "queries":
@@ -115,13 +155,15 @@ def records_for(cfg, path, what):
                 if drv.tracks.graph.number_of_nodes() == 0 and op.endswith("subset"):
                     continue
                 pre, spre = drv.project(), scale_of(drv.tracks)
-                rec = {"kind": "ro", "op": op, "path": path, "pre": pre, "scale_pre": spre, "exc": ""}
+                rec = {"kind": "ro", "op": op, "path": path, "pre": pre, "scale_pre": spre, "exc": "",
+                       "fpre": feat_digest(drv.tracks)}
                 try:
                     (base / f"ro{k}").mkdir()
                     run_ro(drv, op, base / f"ro{k}")
                 except Exception as e:  # noqa: BLE001
                     rec["exc"] = type(e).__name__ + ": " + str(e)[:150]
                 rec["post"], rec["scale_post"] = drv.project(), scale_of(drv.tracks)
+                rec["fpost"] = feat_digest(drv.tracks)
                 out.append(rec)
         elif what == "rt":
             for k, fmt in enumerate(cfg.formats or ["csv", "geff", "internal"]):
@@ -147,7 +189,9 @@ def records_for(cfg, path, what):
             k = 0
             for r in range(0, len(nodes) + 1):
                 for sel in itertools.combinations(nodes, r):
-                    for fmt in ("csv", "geff"):
+                    for fmt in ("csv", "geff", "geff_ow"):
+                        if fmt == "geff_ow" and (r not in (0, 1, len(nodes)) or sel != tuple(nodes[-r:] if r else ())):
+                            continue        # (one selection per size 0, 1, all)
                         k += 1
                         drv = replay.reach(cfg, path)
                         pre = drv.project()
@@ -204,6 +248,11 @@ def read_subset(cfg, tr, fmt, d, rec):
         rec["out_edges"] = [[int(u), int(v)] for u, v in g.edges]
         if tr.segmentation is not None:
             arr = np.asarray(zarr.open(str(d / "g" / "segmentation"), mode="r")[:])
+            if arr.shape != tuple(tr.segmentation.shape):
+                # not the array of these tracks at all
+                rec["dangling"] = -1
+                rec["out_seg"] = []
+                return
             if isinstance(cfg.embed, dict):
                 sub = core.sub_array(arr, cfg)
                 rec["dangling"] = int(np.count_nonzero(arr)) - int(np.count_nonzero(sub))
